@@ -73,6 +73,7 @@ fn main() {
         "drive-symbols" => p_symbols::drive(&rest),
         "drive-usecheck" => p_usecheck::drive(&rest),
         "drive-shipped" => p_compile::drive_shipped(&rest),
+        "replay-chialisp" => p_compile::replay_chialisp(&rest),
         "replay-compile" => p_compile::replay(&rest),
         "gen-programs" => p_compile::gen_programs(&rest),
         "drive-entry" => p_entry::drive(&rest),
